@@ -125,7 +125,11 @@ class C04(Check):
             m.force_tag(r)
             tq = ("ok",) if r.tag == 0 else ("err", to_tree(m, r.fields[0])[0])
             d = m.call_path(f"<{path_ty} as Quil>::to_quil_or_debug", [ref])
-            return {"to_quil": tq, "or_debug": isinstance(deref(d), (Str, StrBuf))}
+            # "never fails": the debug writer itself must report success (to_quil_or_debug swallows an error and returns what was written so far)
+            buf = [Str("")]
+            w = m.call_path(f"<{path_ty} as Quil>::write::<String>", [ref, Ref(buf, 0), True])
+            m.force_tag(w)
+            return {"to_quil": tq, "or_debug": isinstance(deref(d), (Str, StrBuf)) and w.tag == 0}
         per = [observe("Instruction", Ref(body, i)) for i in range(n)]
         pr = observe("Program", Ref(cell, 0))
         oracle(lambda kk, d, g: m.require(kk, d, g), spec, per, pr)
@@ -149,7 +153,7 @@ class C04(Check):
     def native(self, runner, case):
         r = runner.call({"op": "placeholders", "spec": case["spec"], "quil_only": True})
         if "instructions" not in r: return None, r
-        conv = lambda o: {"to_quil": ("ok",) if "ok" in o["to_quil"] else ("err", variant_of(o["to_quil"]["err"])), "or_debug": isinstance(o["or_debug"], str)}
+        conv = lambda o: {"to_quil": ("ok",) if "ok" in o["to_quil"] else ("err", variant_of(o["to_quil"]["err"])), "or_debug": isinstance(o["or_debug"], str) and o.get("debug_write_ok") is True}
         return ([conv(o) for o in r["instructions"]], conv(r["program"])), r
 
     def confirm(self, runner, case):
